@@ -260,6 +260,30 @@ static int inject_fire(const char *name)
 	return 0;
 }
 
+static int resource_errno(int e)
+{
+	return e == EMFILE || e == ENFILE || e == ENOBUFS || e == ENOMEM;
+}
+
+/* like inject_fire, but a call is only counted (and the fault only fired) if the scheduled errno is of the given class */
+static int inject_fire_if(const char *name, int (*cls)(int))
+{
+	for (struct inject *i = injects; i->name; i++) {
+		if (strcmp(i->name, name) == 0) {
+			if (i->nth > 0 && cls(i->err)) {
+				i->calls++;
+				i->nth--;
+				if (i->nth == 0) {
+					i->fired++;
+					return i->err;
+				}
+			}
+			return 0;
+		}
+	}
+	return 0;
+}
+
 static void hygiene(const char *op, int fd, const char *what);
 
 /* a call that cannot complete now: fine on a non-blocking descriptor (EAGAIN); on a blocking one the single-threaded
@@ -550,12 +574,20 @@ int __wrap_accept(int fd, struct sockaddr *addr, socklen_t *len)
 {
 	struct simfd *f = live("accept", fd, K_LISTENER);
 	if (!f) return -1;
+	int e = 0;
 	if (f->npending == 0) {
+		/* the kernel reserves the new descriptor and the socket object BEFORE it looks at the queue: a process that is out
+		 * of descriptors or memory gets EMFILE / ENFILE / ENOBUFS / ENOMEM from accept() even when nothing is pending */
+		e = inject_fire_if("accept", resource_errno);
+		if (e) {
+			errno = e;
+			return -1;
+		}
 		would_block("accept", fd);
 		errno = EAGAIN;
 		return -1;
 	}
-	int e = inject_fire("accept");
+	e = inject_fire("accept");
 	if (e) {
 		if (e == ECONNABORTED) {
 			/* the connection is gone from the queue */
